@@ -188,6 +188,250 @@ fn case_all(dim: u32, order: u32) -> Out {
     }
 }
 
+
+// ------------------------------------------------------------- structured cells
+
+/// x = odd bits, y = even bits of a 2-D Morton code
+fn deinterleave2(z: u64) -> (u64, u64) {
+    let (mut x, mut y) = (0u64, 0u64);
+    for k in 0..32 {
+        y |= ((z >> (2 * k)) & 1) << k;
+        x |= ((z >> (2 * k + 1)) & 1) << k;
+    }
+    (x, y)
+}
+/// x = bits 3k+2, y = bits 3k+1, z = bits 3k of a 3-D Morton code
+fn deinterleave3(c: u64) -> (u64, u64, u64) {
+    let (mut x, mut y, mut z) = (0u64, 0u64, 0u64);
+    for k in 0..21 {
+        z |= ((c >> (3 * k)) & 1) << k;
+        y |= ((c >> (3 * k + 1)) & 1) << k;
+        x |= ((c >> (3 * k + 2)) & 1) << k;
+    }
+    (x, y, z)
+}
+
+/// chunk values that matter for a table indexed by (configuration, chunk)
+fn chunk_patterns() -> Vec<u64> {
+    let mut v = vec![0xfff, 0x000, 0xaaa, 0x555, 0xffe, 0x7ff, 0xf0f, 0x0f0];
+    for b in 0..12 {
+        v.push(1 << b);
+    }
+    v
+}
+
+/// (order, chunk position from the top, configuration reached before the chunk, chunk value, suffix kind):
+/// every order x every 12-bit chunk position of encode_2d x every configuration; `per` chunk values each
+/// (0xfff and 0x000 always, the others in rotation), i.e. the LUT is addressed systematically.
+fn structured2(per: usize, suffixes: u32) -> Vec<(u32, u32, u64, u64, u32)> {
+    let pats = chunk_patterns();
+    let mut out = Vec::new();
+    let mut rot = 0usize;
+    for order in 1..=MAX2 {
+        let nch = (order + 5) / 6;
+        for j in 0..nch {
+            for c in 0..4u64 {
+                if j == 0 && c != 0 {
+                    continue; // the first chunk is always looked up in configuration 0
+                }
+                for k in 0..per.min(pats.len()) {
+                    let p = if k < 2 || per >= pats.len() {
+                        pats[k]
+                    } else {
+                        rot += 1;
+                        pats[2 + rot % (pats.len() - 2)]
+                    };
+                    for sfx in 0..suffixes {
+                        out.push((order, j, c, p, (rot as u32 + sfx) % 3));
+                    }
+                }
+            }
+        }
+    }
+    out
+}
+
+fn case_structured2(r: &mut Rng, order: u32, j: u32, c: u64, pat: u64, sfx: u32) -> Out {
+    let done = 6 * j; // levels consumed by the chunks before this one
+    // a prefix of `done` levels after which the state machine is in configuration c
+    let mut prefix = 0u64;
+    if done > 0 {
+        let mask = u64::MAX >> (64 - 2 * done);
+        for _ in 0..200 {
+            let cand = match r.below(4) {
+                0 => 0,
+                1 => mask,
+                _ => r.next() & mask,
+            };
+            prefix = cand;
+            if vh::encode_2d_slow(cand, done as usize, 0).1 as u64 == c {
+                break;
+            }
+        }
+    }
+    let rem = order - done; // levels from this chunk down
+    let r_chunk = rem.min(6); // levels of this chunk (the last one may be partial)
+    let below = rem - r_chunk;
+    let chunk = pat >> (12 - 2 * r_chunk);
+    let suffix = if below == 0 {
+        0
+    } else {
+        let m = u64::MAX >> (64 - 2 * below);
+        match sfx {
+            0 => 0,
+            1 => m,
+            _ => r.next() & m,
+        }
+    };
+    let z = if rem == 32 { 0 } else { prefix << (2 * rem) } | (chunk << (2 * below)) | suffix;
+    let (x, y) = deinterleave2(z);
+    case2(order, x, y, "encode_2d_lut_entry")
+}
+
+/// steering copy of the 3-D state table (entry = next_state * 8 + digit), used ONLY to choose inputs that
+/// reach a given state; the verdict never depends on it
+const LUT3_STEER: [u8; 96] = [
+    48, 33, 27, 34, 47, 78, 28, 77, 66, 29, 51, 52, 65, 30, 72, 63, 76, 95, 75, 24, 53, 54, 82, 81, 18, 3, 17, 80, 61, 4,
+    62, 15, 0, 59, 71, 60, 49, 50, 86, 85, 84, 83, 5, 90, 79, 56, 6, 89, 32, 23, 1, 94, 11, 12, 2, 93, 42, 41, 13, 14, 35,
+    88, 36, 31, 92, 37, 87, 38, 91, 74, 8, 73, 46, 45, 9, 10, 7, 20, 64, 19, 70, 25, 39, 16, 69, 26, 44, 43, 22, 55, 21, 68,
+    57, 40, 58, 67,
+];
+fn state3_after(code: u64, levels: u32) -> u64 {
+    let mut s = 0u64;
+    for i in (0..levels).rev() {
+        s = (LUT3_STEER[(s * 8 + ((code >> (3 * i)) & 7)) as usize] >> 3) as u64;
+    }
+    s
+}
+
+/// (order, state, octant): every entry of the 96-entry table, at `orders_per` orders each (rotating so that
+/// every order 1..=21 is used); the level at which the entry is addressed is chosen per case
+fn structured3(orders_per: u32) -> Vec<(u32, u64, u64)> {
+    let mut out = Vec::new();
+    for s in 0..12u64 {
+        for q in 0..8u64 {
+            for k in 0..orders_per {
+                let order = if orders_per >= MAX3 { k + 1 } else { ((s * 8 + q) as u32 * 5 + k * (MAX3 / orders_per).max(1)) % MAX3 + 1 };
+                out.push((order, s, q));
+            }
+        }
+    }
+    out
+}
+
+fn case_structured3(r: &mut Rng, order: u32, s: u64, q: u64) -> Out {
+    // levels above the addressed one: p; look for a prefix of p levels that reaches state s
+    let mut found: Option<(u32, u64)> = None;
+    'outer: for attempt in 0..40 {
+        let p = if s == 0 && attempt == 0 { 0 } else { r.below(order as u64) as u32 };
+        if p == 0 {
+            if s == 0 {
+                found = Some((0, 0));
+                break;
+            }
+            continue;
+        }
+        let mask = u64::MAX >> (64 - 3 * p);
+        for _ in 0..60 {
+            let cand = r.next() & mask;
+            if state3_after(cand, p) == s {
+                found = Some((p, cand));
+                break 'outer;
+            }
+        }
+    }
+    let (p, prefix) = match found {
+        Some(f) => f,
+        None => (0, 0), // state not reachable at this order: an ordinary cell in state 0
+    };
+    let below = order - p - 1;
+    let suffix = if below == 0 {
+        0
+    } else {
+        let m = u64::MAX >> (64 - 3 * below);
+        match r.below(3) {
+            0 => 0,
+            1 => m,
+            _ => r.next() & m,
+        }
+    };
+    let code = (if p == 0 { 0 } else { prefix << (3 * (below + 1)) }) | (q << (3 * below)) | suffix;
+    let (x, y, z) = deinterleave3(code);
+    case3(order, x, y, z, "encode_3d_lut_entry")
+}
+
+// ------------------------------------------------------------- the public entry point
+
+fn order_cases() -> Vec<(u32, u32)> {
+    let mut v = Vec::new();
+    for o in [0u32, 1, 6, 12, 13, 31, 32, 33, 34, 40, 63, 64, 65, 100, 1 << 20, u32::MAX] {
+        v.push((2, o));
+    }
+    for o in [0u32, 1, 6, 12, 20, 21, 22, 23, 24, 32, 33, 63, 64, 65, 1 << 20, u32::MAX] {
+        v.push((3, o));
+    }
+    v
+}
+
+/// HilbertCurve { part_count: 2, order }.partition on 8 random points: accepted iff order <= 32 / 21
+fn case_order(r: &mut Rng, dim: u32, order: u32) -> Out {
+    use coupe::Partition as _;
+    let n = 8usize;
+    let coords: Vec<[f64; 3]> = (0..n)
+        .map(|_| {
+            let mut c = [0.0; 3];
+            for v in c.iter_mut() {
+                *v = (r.next() >> 11) as f64 / (1u64 << 53) as f64 * 16.0 - 8.0;
+            }
+            c
+        })
+        .collect();
+    let cc = coords.clone();
+    let res = guarded(2, Duration::from_secs(30), move || {
+        let w = vec![1.0f64; n];
+        let mut part = vec![usize::MAX; n];
+        let mut alg = coupe::HilbertCurve { part_count: 2, order };
+        let e = if dim == 2 {
+            let pts: Vec<coupe::Point2D> = cc.iter().map(|c| coupe::Point2D::new(c[0], c[1])).collect();
+            alg.partition(&mut part, (&pts[..], w))
+        } else {
+            let pts: Vec<coupe::Point3D> = cc.iter().map(|c| coupe::Point3D::new(c[0], c[1], c[2])).collect();
+            alg.partition(&mut part, (&pts[..], w))
+        };
+        e.map(|_| part)
+    });
+    let (coq_r, json_r) = match &res {
+        Guarded::Done(Ok(p)) => (
+            format!("(IOk {})", coq_nlist(p.iter().map(|x| *x as u128))),
+            format!("{{\"ok\":{}}}", json_usizes(p)),
+        ),
+        Guarded::Done(Err(coupe::HilbertCurveError::InvalidOrder { max, actual })) => (
+            format!("(IErr 4 {} {})", max, actual),
+            format!("{{\"err\":\"InvalidOrder\",\"max\":{},\"actual\":{}}}", max, actual),
+        ),
+        Guarded::Done(Err(e)) => ("(IErr 99 0 0)".to_string(), format!("{{\"err\":{}}}", json_str(&format!("{:?}", e)))),
+        Guarded::Panic(m) => ("IPanic".to_string(), format!("{{\"panic\":{}}}", json_str(m))),
+        Guarded::Hang => ("IHang".to_string(), "{\"hang\":true}".to_string()),
+    };
+    let pts: Vec<String> = coords
+        .iter()
+        .map(|c| if dim == 2 { format!("[{:e},{:e}]", c[0], c[1]) } else { format!("[{:e},{:e},{:e}]", c[0], c[1], c[2]) })
+        .collect();
+    Out {
+        coq: format!("KOrder {} {} {}", dim, order, coq_r),
+        json: format!(
+            "{{\"kind\":\"HilbertCurve::partition\",\"dim\":{},\"order\":{},\"part_count\":2,\"points\":[{}],\"impl\":{}}}",
+            dim,
+            order,
+            pts.join(","),
+            json_r
+        ),
+        key: format!("o|{}|{}|{:?}", dim, order, coords),
+        nontrivial: true,
+        fam: format!("partition_{}d_order_{}", dim, if (dim == 2 && order <= MAX2) || (dim == 3 && order <= MAX3) { "accepted" } else { "refused" }),
+    }
+}
+
 fn case_pdep(r: &mut Rng) -> Out {
     let interleave = [
         0x5555_5555_5555_5555u64,
@@ -550,6 +794,13 @@ fn main() {
     let mut hangs = 0usize;
     let mut panics = 0usize;
     let overflow_cases = if thorough { 200 } else { 40 };
+    let orders = order_cases();
+    let st2 = if thorough { structured2(usize::MAX, 2) } else { structured2(4, 1) };
+    let st3 = if thorough { structured3(MAX3) } else { structured3(5) };
+    let h0 = 65 + overflow_cases; // end of the first deterministic block
+    let h1 = h0 + orders.len();
+    let h2 = h1 + st2.len();
+    let h3 = h2 + st3.len();
 
     // exhaustive sweeps on the Rust side (thorough tier): orders 1..=12 (2-D), 1..=7 (3-D)
     let mut sweep_fail: Vec<(u32, u32, u64, u64, u64)> = Vec::new();
@@ -603,10 +854,30 @@ fn main() {
             let o = idx as u32 - 43;
             let (x, y, z) = (coord(&mut r, o), coord(&mut r, o), coord(&mut r, o));
             case3(o, x, y, z, "encode_3d_each_order")
-        } else if idx < 65 + overflow_cases {
+        } else if idx < h0 {
             case_seg(&mut r, true)
+        } else if idx < h1 {
+            let (dim, o) = orders[idx - h0];
+            case_order(&mut r, dim, o)
+        } else if idx < h2 {
+            let (o, j, c, p, sfx) = st2[idx - h1];
+            case_structured2(&mut r, o, j, c, p, sfx)
+        } else if idx < h3 {
+            let (o, st, q) = st3[idx - h2];
+            case_structured3(&mut r, o, st, q)
         } else {
-            match r.below(20) {
+            match r.below(21) {
+                20 => {
+                    let dim = 2 + r.below(2) as u32;
+                    let mx = if dim == 2 { MAX2 } else { MAX3 };
+                    let o = match r.below(4) {
+                        0 => r.below(mx as u64 + 1) as u32,
+                        1 => mx + 1 + r.below(12) as u32,
+                        2 => mx,
+                        _ => r.next() as u32,
+                    };
+                    case_order(&mut r, dim, o)
+                }
                 0..=5 => {
                     let o = if r.chance(1, 4) { 29 + r.below(4) as u32 } else { r.below(MAX2 as u64 + 1) as u32 };
                     let (x, y) = (coord(&mut r, o), coord(&mut r, o));
@@ -640,6 +911,8 @@ fn main() {
         }
     }
     extra.push(format!("\"cpu_has_bmi2\":{}", bmi2() as u32));
+    extra.push(format!("\"structured_2d_lut_cases\":{}", st2.len().min(a.cases.saturating_sub(h1))));
+    extra.push(format!("\"structured_3d_lut_cases\":{}", st3.len().min(a.cases.saturating_sub(h2))));
     extra.push(format!("\"hangs\":{}", hangs));
     extra.push(format!("\"panics\":{}", panics));
     w.finish(&extra.join(","));
